@@ -153,7 +153,101 @@ pub fn render_all(ax: &mut Axecutor) -> Option<(String, String)> {
 }
 
 impl C18 {
+    /// Deep recursion: `mov ecx,N; f: sub ecx,1; jz out; call f; out: ret` nests N-1 calls and returns through all
+    /// of them. The structured views are compared at checkpoints (every step would be quadratic); the text
+    /// renderers are exercised only for small N (their output is quadratic in the depth by design: two spaces per level).
+    fn deep_case(&self, k: u64, rng: &mut Rng, col: &mut Collector) {
+        let n: u64 = *rng.pick(&[50u64, 1000, 32766, 32767, 32768, 32769, 33000, self.tier.pick(33000, 70000)]);
+        let mut code = vec![0xb9u8];
+        code.extend_from_slice(&(n as u32).to_le_bytes());
+        code.extend_from_slice(&[0x83, 0xe9, 0x01, 0x74, 0x05, 0xe8]);
+        code.extend_from_slice(&(-10i32).to_le_bytes());
+        code.push(0xc3);
+        let at = proggen::CODE_AT;
+        let shape = format!("deep-recursion N={}", n);
+        col.publish("trace", &shape);
+        let made = call(|| {
+            let mut ax = Axecutor::new(&code, at, at)?;
+            ax.init_stack(n * 8 + 0x1000)?;
+            Ok(ax)
+        });
+        let Call::Ok(mut ax) = made else {
+            col.count("build_failed", 1);
+            return;
+        };
+        let fail = |col: &mut Collector, rule: &str, detail: String, step: u64| {
+            col.violation_case(&format!("trace:{}", rule), k, format!("{} ({}, step {})", detail, shape, step), json!({"program_hex": hex(&code), "shape": shape, "step": step, "problem": detail}));
+        };
+        let initial_rsp = ax.reg_read_64(SR::RSP).unwrap_or(0);
+        let mut tr = Tracer::from_initial(&ax.verif_trace(), &ax.verif_call_stack());
+        let mut steps = 0u64;
+        let mut end = "limit";
+        while steps < 6 * n + 100 {
+            let rip = ax.reg_read_64(SR::RIP).unwrap_or(0);
+            let rsp = ax.reg_read_64(SR::RSP).unwrap_or(0);
+            let zf_after_sub = ax.reg_read_64(SR::RCX).unwrap_or(0) & 0xffff_ffff == 0;
+            let r = call(|| block_on(ax.step()));
+            steps += 1;
+            col.eval(1);
+            if r.is_panic() {
+                return fail(col, &format!("step-panic:{}", r.panic_key()), r.describe(), steps);
+            }
+            let rip_after = ax.reg_read_64(SR::RIP).unwrap_or(0);
+            if r.is_ok() {
+                match rip - at {
+                    8 if zf_after_sub => tr.add(rip, at + 15, 2),
+                    10 => {
+                        tr.add(rip, at + 5, 0);
+                        tr.call_stack.push(at + 5);
+                    }
+                    15 if rsp != initial_rsp => {
+                        tr.add(rip, rip_after, 1);
+                        tr.call_stack.pop();
+                    }
+                    _ => {}
+                }
+            }
+            let done = !matches!(r, Call::Ok(true));
+            if done || steps % 16384 == 0 {
+                if let Some(d) = tr.compare(&ax.verif_trace(), &ax.verif_call_stack()) {
+                    return fail(col, "trace-or-call-stack-differs", d, steps);
+                }
+            }
+            match r {
+                Call::Ok(true) => {}
+                Call::Ok(false) => {
+                    end = "finished";
+                    break;
+                }
+                _ => {
+                    end = "error";
+                    break;
+                }
+            }
+        }
+        if end != "finished" {
+            return fail(col, "deep-recursion-did-not-finish", format!("run ended with {:?} after {} steps", end, steps), steps);
+        }
+        // the call stack renders at any depth (linear); the indented trace only for small depths
+        match call(|| ax.call_stack()) {
+            Call::Ok(_) => {}
+            other => return fail(col, "call_stack-render", other.describe(), steps),
+        }
+        if n <= 1000 {
+            if let Some((rule, d)) = render_all(&mut ax) {
+                return fail(col, &rule, d, steps);
+            }
+        }
+        let max_level = tr.entries.iter().map(|e| e.level).max().unwrap_or(0);
+        col.distinct_key(&format!("deep|{}", n));
+        col.count("deep_recursion_runs", 1);
+        col.set_insert("deep_recursion_max_level", &format!("{}", max_level));
+    }
+
     fn case(&self, k: u64, rng: &mut Rng, col: &mut Collector) {
+        if k % 500 == 3 {
+            return self.deep_case(k, rng, col);
+        }
         let opts = ProgOpts { unbalanced_ret: true, fault_tail: true, indirect: true, ..Default::default() };
         let prog = proggen::gen_prog(rng, &opts);
         let with_stack = rng.below(8) != 0;
